@@ -423,6 +423,8 @@ class _Tags:
             if k in ("copy", "move"):
                 if is_pre(op[1], dst):
                     self.tags.add("copy-into-own-subtree")
+                elif dst.startswith(op[1]) or op[1].startswith(dst):
+                    self.tags.add(k + ("-to-path-whose-string-extends-the-source" if dst.startswith(op[1]) else "-to-path-whose-string-is-a-prefix-of-the-source"))
                 if parent(dst) != "/" and parent(dst) not in before:
                     self.tags.add(k + "-missing-dest-parents")
         if k in ("set", "grp", "sattr", "dattr", "del", "copy", "move"):
@@ -607,6 +609,9 @@ L2 = ["a", "b", "x"]
 L3 = ["a", "y"]
 L4 = ["a", "z"]
 EXOTIC = ["a.b", "..", "~", "A", "%41", "a\\b", "!", "[0]", "a=b;c", "a:b,c", "x-", "0", "~~"]
+# a key + one of these = a SIBLING whose name begins with the characters of the key (a / ab / a1 / a10 / a_old …; also
+# a1 / a10 among themselves): as strings such paths are prefixes of each other, as key lists they are unrelated
+SUFFIX = ["b", "1", "10", "_old", "a", "1"]
 AKEYS = ["k", "m"]
 VALS = ["i0", "i1", "i2", "i7", "i-3", "sabc", "sx", "a1.2.3", "a5", "i1000000"]
 # less usual but legal HDF5 values: opaque scalars of width 1, 2, 3 (everything around the IH5
@@ -671,12 +676,30 @@ class Sim:
         return len(self.t)
 
 
-def rand_path(rng, maxd=4, exotic=0.04):
+def rand_path(rng, maxd=4, exotic=0.04, longer=0.1):
+    """`longer`: share of the keys (at every level) that get a suffix, i.e. are name-extending siblings of the level's keys"""
     d = min(rng.choice([1, 1, 2, 2, 2, 3, 3, 4]), maxd)
     segs = []
     for lvl, keys in zip(range(d), [L1, L2, L3, L4]):
-        segs.append(rng.choice(EXOTIC) if rng.random() < exotic else rng.choice(keys))
+        segs.append(rng.choice(EXOTIC) if rng.random() < exotic else rng.choice(keys) + (rng.choice(SUFFIX) if rng.random() < longer else ""))
     return "/" + "/".join(segs)
+
+
+def name_kin(rng, p):
+    """a path whose STRING is related to the string of p without the path being related to p: the sibling whose name
+    extends p's last key (/a/b -> /a/b1, /a/b_old), a path below that sibling (/a/b1/x), or - if p's last key has more
+    than one character - the sibling with a shortened name (/a/b10 -> /a/b1, /a/b) or a path below it"""
+    last = p.rsplit("/", 1)[1]
+    r = rng.random()
+    if len(last) > 1 and r < 0.35:
+        q = p[: len(p) - rng.randrange(1, len(last))]
+        if q.endswith("/."):  # '.' is no key (HDF5 reads it as the current group)
+            q = p + rng.choice(SUFFIX)
+    else:
+        q = p + rng.choice(SUFFIX)
+    if rng.random() < 0.3:
+        q += "/" + rng.choice(L2)
+    return q
 
 
 def rand_refused(rng, sim, maxd=4):
@@ -722,6 +745,8 @@ def rand_op(rng, sim, maxd=4):
     q = rng.random()
     if q < 0.3 and kind == "copy":
         dst = s + "/" + "/".join(rng.choice(L2) for _ in range(rng.choice([1, 2, 2])))  # into own subtree
+    elif q < 0.42 and s != "/":
+        dst = name_kin(rng, s)  # rename to / below a sibling whose name extends or shortens the source's name
     elif q < 0.6:
         dst = rand_path(rng, 2) + "/" + "/".join(rng.choice(["n", "m", "a"]) for _ in range(rng.choice([1, 2])))  # missing parents likely
     else:
@@ -740,9 +765,15 @@ def template(rng):
         P += "/" + rng.choice(L2)
     v = lambda: rand_val(rng)  # noqa: E731
     k = rng.choice(AKEYS)
-    t = rng.randrange(14)
+    t = rng.randrange(15)
     B = ["patch"]
     bd = lambda: rng.choice(BAD_DS)  # noqa: E731
+    if t == 14:  # rename / copy between siblings whose names begin alike (a -> ab, a1 -> a10, a_old -> a), then both names are used
+        A = name_kin(rng, P)
+        s_, d_ = (P, A) if rng.random() < 0.7 else (A.rsplit("/", 1)[0] if A.count("/") > P.count("/") else A, P)
+        kind = rng.choice(["move", "move", "copy"])
+        return [rng.choice([["set", s_, v()], ["set", s_ + "/x", v()], ["grp", s_]]), ["sattr", s_, k, v()]] + ([B] if rng.random() < 0.6 else []) + [
+            [kind, s_, d_]] + ([B] if rng.random() < 0.3 else []) + [rng.choice([["set", s_, v()], ["del", d_], ["set", d_ + "/n", v()], ["move", d_, s_], ["sattr", d_, k, v()]])]
     if t == 11:  # refused value at a name deleted in this / in an older patch (the deletion must stay), then the name is used again
         return [rng.choice([["set", P, v()], ["set", P + "/x", v()], ["grp", P]]), B, ["del", P]] + ([B] if rng.random() < 0.4 else []) + [
             ["setbad", P, bd()]] + ([B] if rng.random() < 0.3 else []) + [rng.choice([["set", P, v()], ["grp", P], ["set", P + "/a", v()], ["setbad", P + "/a/y", bd()]])]
@@ -834,9 +865,15 @@ def gen_focus(rng):
                 ops += [["del", P], rng.choice([["grp", P], ["set", P, v()]])]
     else:  # name focus
         Q = [P, P + "/x", P + "/x/y"]
+        K = [P + rng.choice(SUFFIX), P + "/x" + rng.choice(SUFFIX)]  # siblings with name-extending names
         for _ in range(rng.randrange(4, 12)):
             r = rng.random()
-            if r < 0.3:
+            if r < 0.08:
+                a, b = rng.choice([(P, K[0]), (K[0], P), (P + "/x", K[1]), (K[1], P + "/x"), (P, K[0] + "/n")])
+                ops.append([rng.choice(["move", "move", "copy"]), a, b])
+            elif r < 0.14:
+                ops.append(rng.choice([["set", rng.choice(K), v()], ["del", rng.choice(K)]]))
+            elif r < 0.3:
                 ops.append(["set", rng.choice(Q + [P + "/b"]), v()])
             elif r < 0.4:
                 ops.append(["grp", rng.choice(Q)])
@@ -1018,7 +1055,9 @@ def gen_relocate(rng):
             src = (rng.choice(frg) if frg and rng.random() < 0.6 else rng.choice(fr)) if fr and rng.random() < 0.8 else rng.choice(e)
             live, dead, cut = h.live_past(), h.dead_past(), h.dead_cut()
             r = rng.random()
-            if r < 0.2 and live:
+            if rng.random() < 0.12:
+                dst = name_kin(rng, rng.choice([src] + live + cut))  # string-related, path-unrelated (sibling with a longer / shorter name)
+            elif r < 0.2 and live:
                 dst = rng.choice(live)
             elif r < 0.65 and dead:
                 dst = rng.choice(cut) if cut and rng.random() < 0.7 else rng.choice(dead)
@@ -1074,6 +1113,22 @@ def enum_refused():
                         yield [list(o) for o in h] + [list(b), list(a)]
 
 
+def enum_kin():
+    """rename / copy between paths whose strings are prefixes of each other while the paths are unrelated: every source
+    among /a, /ab, /a1, /a10, /a/b, /a/b1 (dataset, empty group, group with a child), with and without a boundary before
+    the operation, every destination among these and /ab/c, /a/b1/c that is not below the source; then the source name is
+    set again and the destination gets a child"""
+    names = ["/a", "/ab", "/a1", "/a10", "/a/b", "/a/b1"]
+    for src in names:
+        for mk in ([["set", src, "i1"]], [["grp", src]], [["set", src + "/n", "i1"], ["sattr", src, "k", "i2"]]):
+            for b in ([], [["patch"]]):
+                for kind in ("move", "copy"):
+                    for dst in names + ["/ab/c", "/a/b1/c"]:
+                        if is_pre(src, dst):
+                            continue
+                        yield [list(o) for o in mk + b] + [[kind, src, dst], ["set", src, "i3"], ["set", dst + "/m", "i4"]]
+
+
 def gen_cases(ctx, quick=None):
     quick = ctx.quick if quick is None else quick
     rng = ctx.rng
@@ -1122,7 +1177,8 @@ def _tmp_root():
 def run(ctx):
     _tmp_root()
     ctx.rule = ("cases: operation histories (set-dataset, create-group, delete, set-attr, del-attr, copy, move, commit+create-patch boundary) over "
-                "paths of depth <= 4 on 2-3 colliding keys per level (+ exotic printable-ASCII keys), values and attribute values from int64 / uint8 / bool scalars, strings (also empty and non-alphanumeric), 1-d and 2-d int arrays, opaque scalars of width 1-3 around the deletion marker (the marker itself excluded: C17), opaque arrays and the null dataspace, 0-6 boundaries at random positions, with the "
+                "paths of depth <= 4 on 2-3 colliding keys per level (+ exotic printable-ASCII keys; at every level a tenth of the keys carries a suffix, so that siblings whose names begin alike - a, ab, a1, a10, a_old - occur, "
+                "and a share of the copy / move destinations is the sibling with the longer or shorter name, or a path below it: path strings that are prefixes of each other although the paths are unrelated), values and attribute values from int64 / uint8 / bool scalars, strings (also empty and non-alphanumeric), 1-d and 2-d int arrays, opaque scalars of width 1-3 around the deletion marker (the marker itself excluded: C17), opaque arrays and the null dataspace, 0-6 boundaries at random positions, with the "
                 "shapes named by the property spliced in as templates, plus dense short histories on one attribute / one name (set, overwrite, remove, boundary in every order), "
                 "plus copy / move histories between the current patch and the past (source mostly a node of the current patch, also a group that exists only implicitly as intermediate group of a longer path; "
                 "destination mostly a node stored in older containers only, a path deleted or replaced in an earlier or the current patch, or a path below one; the destination's parent with and without a node in the newest container; follow-up operations on the destination, also after a further boundary). Each history is applied to a real IH5Record and a real h5py.File in lock-step; "
@@ -1132,7 +1188,7 @@ def run(ctx):
                 "at a path / attribute that never existed, exists in the newest container, exists in older containers only, was deleted in this patch or in an older one, lies below missing parents, below a dataset or below a deleted name, "
                 "mostly followed by an accepted operation on the same name: both real sides must fail and both complete dumps must stay unchanged (a refused call has no effect). "
                 "Non-trivial = tagged: replace-then-touch across >=3 containers, delete-then-create-below, attrs on nodes of older containers, "
-                "copy into own subtree, copy/move with missing destination parents, copy/move of a node of the current patch to a path deleted in an older container / onto a node of an older container (refused), >=3 containers, failing operations per kind, "
+                "copy into own subtree, copy/move to a path whose string extends / is a prefix of the source's string, copy/move with missing destination parents, copy/move of a node of the current patch to a path deleted in an older container / onto a node of an older container (refused), >=3 containers, failing operations per kind, "
                 "refused values per state of the target (tags refused-value:*) and per refusal stage (refused-class:*).")
     ctx.assumptions += [
         "h5py/HDF5 implements the flat tree semantics of Model/Tree.Spec (checked on every step: the plain h5py.File is one side of the lock-step and is compared with the Spec model)",
@@ -1154,10 +1210,15 @@ def run(ctx):
         ctx.notes.append("a corpus witness fails again; generated histories skipped")
         return
     cases = gen_cases(ctx)
+    n_gen = len(cases)
     if not ctx.quick:
         small = [dict(ops=h) for h in enum_small()]
         cases += small
         ctx.exhaustive_spaces.append("all %d histories of length <= 3 over the 6 paths of depth <= 2 on keys {a,b} with set/create-group/delete/set-attr/del-attr (one key, also on the root) and boundary" % len(small))
+        kin = [dict(ops=h) for h in enum_kin()]
+        cases += kin
+        ctx.exhaustive_spaces.append("all %d histories 'create the source (dataset / group / group with child and attribute); boundary or not; move or copy it; set the source name again; create a child of the destination' "
+                                     "over the names /a, /ab, /a1, /a10, /a/b, /a/b1 (+ destinations /ab/c, /a/b1/c), destination not below the source" % len(kin))
         refused = [dict(ops=h) for h in enum_refused()]
         cases += refused
         ctx.exhaustive_spaces.append("all %d histories made of <= 4 accepted operations on the name /a (set /a, create-group /a, delete /a, set /a/b, set-attr / del-attr k on /a, boundary) followed by one refused "
@@ -1168,7 +1229,8 @@ def run(ctx):
     smoke += [dict(ops=gen_focus(ctx.rng)) for _ in range(40)]
     smoke += [dict(ops=gen_relocate(ctx.rng)) for _ in range(16)]
     smoke += [dict(ops=gen_refused(ctx.rng)) for _ in range(24)]
-    batches = [smoke] + [cases[i : i + 400] for i in range(0, len(cases), 400)]
+    # (the enumerated histories are tiny: larger chunks, otherwise starting the workers costs more than the cases)
+    batches = [smoke] + [cases[i : i + 400] for i in range(0, n_gen, 400)] + [cases[i : i + 4000] for i in range(n_gen, len(cases), 4000)]
     cases = smoke + cases
     for b in batches:
         ctx.correspond("overlay-vs-plain-vs-models", MOD, b, lines, "drv_ov", compare=compare, timeout=20.0)
